@@ -23,10 +23,10 @@ def obligations(tier):
                 functions=['bloom_filter_block_insert', 'bloom_filter_block_check'], stub_realloc=False))
     for nb in nbs:
         d = ['-DNB=%d' % nb]
-        o.append(E1('nofn-step/nb%d' % nb, H, SRC, d + ['-DMODE=1'], unwind=nb * 32 + 2, backends=SAT, timeout=240,
+        o.append(E1('nofn-step/nb%d' % nb, H, SRC, d + ['-DMODE=1'], unwind=nb * 32 + 2, backends=SAT, timeout=420,
                     bounds='arbitrary filter state of %d block(s), symbolic 64-bit hashes h,h2; one inductive insert step' % nb,
                     functions=FN_BLOOM, stub_realloc=False))
-        o.append(E1('sbbf-conformance/nb%d' % nb, H, SRC, d + ['-DMODE=2'], unwind=nb * 32 + 2, backends=SAT, timeout=240,
+        o.append(E1('sbbf-conformance/nb%d' % nb, H, SRC, d + ['-DMODE=2'], unwind=nb * 32 + 2, backends=SAT, timeout=420,
                     bounds='arbitrary filter state of %d block(s), symbolic hash; all bytes compared with the reference algorithm' % nb,
                     functions=FN_BLOOM, stub_realloc=False))
     for nb in ([2] if quick else [2, 4]):
